@@ -333,12 +333,76 @@ func c10Save(ti, gi int, nf bool) string {
 	return ""
 }
 
+// ---- sequences of fragment renders that share one File (a failure must not leak into the next)
+
+type c10Step struct {
+	tree int
+	fail bool // the writer fails at its first call
+}
+
+var c10Steps = []c10Step{{0, false}, {0, true}, {6, false}, {4, false}, {2, false}, {2, true}, {8, false}, {1, false}}
+
+// c10Sequence runs the steps with one shared File through entry (1 = Statement.RenderWithFile,
+// 2 = Group.RenderWithFile) and compares every successful step with a render using a fresh File
+// that went through the same successful steps.
+func c10Sequence(group bool, seq []int) string {
+	shared := jen.NewFilePathName("a/b", "b")
+	run := func(f *jen.File, t c10Tree, w io.Writer) error {
+		if group {
+			return c10Group(t).RenderWithFile(w, f)
+		}
+		return t.build().RenderWithFile(w, f)
+	}
+	var okSteps []int
+	for si, k := range seq {
+		st := c10Steps[k]
+		t := c10Trees[st.tree]
+		var got bytes.Buffer
+		var w io.Writer = &got
+		if st.fail {
+			w = failFirst{}
+		}
+		o := jh.Catch(func() (string, error) { return "", run(shared, t, w) })
+		if o.Panic != nil {
+			return fmt.Sprintf("step %d (%s) panics: %v", si+1, t.name, o.Panic)
+		}
+		switch {
+		case !t.valid || st.fail:
+			if o.Err == nil {
+				return fmt.Sprintf("step %d (%s, failing writer %v) returned nil", si+1, t.name, st.fail)
+			}
+		default:
+			if o.Err != nil {
+				return fmt.Sprintf("step %d (%s) failed after earlier steps on the same File: %s", si+1, t.name, jh.Short(o.Err.Error(), 200))
+			}
+			// reference: a fresh File that saw the earlier SUCCESSFUL steps only
+			ref := jen.NewFilePathName("a/b", "b")
+			for _, p := range okSteps {
+				run(ref, c10Trees[c10Steps[p].tree], io.Discard)
+			}
+			var want bytes.Buffer
+			if err := run(ref, t, &want); err != nil {
+				return "reference render failed: " + err.Error()
+			}
+			if got.String() != want.String() {
+				return fmt.Sprintf("step %d (%s) wrote %q; with a File that did not see the failed steps it writes %q", si+1, t.name, jh.Short(got.String(), 200), jh.Short(want.String(), 200))
+			}
+			okSteps = append(okSteps, k)
+		}
+	}
+	return ""
+}
+
+type failFirst struct{}
+
+func (failFirst) Write(p []byte) (int, error) { return 0, errors.New("writer closed") }
+
 func runC10(r *ev.Recorder) {
 	r.SetDeadline(10 * 60 * 1e9)
 	r.Rule = fmt.Sprintf("writer faults: %d entry points (File.Render with formatting on/off, Statement.Render, Statement.RenderWithFile, Group.Render, Group.RenderWithFile) x %d trees (6 valid, 6 invalid, of different sizes) x EVERY answer sequence of the writer "+
 		"(each Write call answered ok / error / short write + error, explored exhaustively by the choice-point explorer - whatever number of calls the implementation makes). Oracle: invalid tree => error and ZERO writer calls; "+
 		"any injected fault => the returned error Is that fault (never nil); no fault => concatenated writes equal the bytes the same tree renders into a bytes.Buffer. "+
-		"Save: %d trees x %d filesystem situations (absent, existing longer/shorter than the output, directory, missing parent, parent is a file, name too long, /dev/full, symlink) x formatting on/off. "+
+		"Sequences: every sequence of 2 and 3 fragment renders (Statement / Group RenderWithFile; valid and invalid trees; good and failing writer) that share ONE File: a failed step must leave no trace - every successful step writes what a File that saw only the successful steps writes. Save: %d trees x %d filesystem situations (absent, existing longer/shorter than the output, directory, missing parent, parent is a file, name too long, /dev/full, symlink) x formatting on/off. "+
 		"Oracle: failed render => error, existing target byte-identical with unchanged mtime, directory listing unchanged; unwritable target => error and unchanged listing; success => file content exactly the rendered bytes. "+
 		"distinct_nontrivial = distinct executions with at least one injected fault, an invalid tree, or an fs situation other than 'absent'", len(c10Entries), len(c10Trees), len(c10Trees), len(c10Targets))
 	r.Assume = []string{"the sandbox runs as root: permission faults (EACCES) cannot be produced; the other causes are", "an io.Writer that returns n < len(p) also returns an error (its contract)"}
@@ -372,6 +436,42 @@ func runC10(r *ev.Recorder) {
 			}
 		}
 	}
+	// sequences on one shared File
+	nst := len(c10Steps)
+	for _, group := range []bool{false, true} {
+		for l := 2; l <= 3; l++ {
+			total := 1
+			for i := 0; i < l; i++ {
+				total *= nst
+			}
+			for code := 0; code < total; code++ {
+				seq := make([]int, l)
+				c := code
+				hasFailure := false
+				for i := range seq {
+					seq[i] = c % nst
+					c /= nst
+					if st := c10Steps[seq[i]]; st.fail || !c10Trees[st.tree].valid {
+						hasFailure = true
+					}
+				}
+				msg := c10Sequence(group, seq)
+				r.Eval(1)
+				var names []string
+				for _, k := range seq {
+					names = append(names, fmt.Sprintf("%s(failing writer=%v)", c10Trees[c10Steps[k].tree].name, c10Steps[k].fail))
+				}
+				desc := fmt.Sprintf("fragment renders sharing one File (Group=%v): %v", group, names)
+				if hasFailure {
+					r.Distinct(desc)
+				}
+				if msg != "" {
+					r.Violate(ev.Violation{Signature: "c10:sequence:" + problemKind(msg), What: desc + ": " + msg,
+						Case: ev.JSON(c10Case{Kind: "sequence", Entry: map[bool]int{false: 1, true: 2}[group], Vector: seq, Desc: desc}), Detail: msg})
+				}
+			}
+		}
+	}
 	for ti := range c10Trees {
 		for gi := range c10Targets {
 			for _, nf := range []bool{false, true} {
@@ -401,6 +501,8 @@ func replayC10(raw json.RawMessage) (bool, string) {
 	var msg string
 	if c.Kind == "save" {
 		msg = c10Save(c.Tree, c.Target, c.NoFormat)
+	} else if c.Kind == "sequence" {
+		msg = c10Sequence(c.Entry == 2, c.Vector)
 	} else {
 		msg, _ = c10Writer(explore.NewReplay(c.Vector), c.Entry, c.Tree, c.NoFormat)
 	}
